@@ -1,11 +1,13 @@
 package checks
 
 import (
+	"context"
 	"encoding/json"
 	"fmt"
 
 	"github.com/ipfs/go-cid"
 	unixfsnode "github.com/ipfs/go-unixfsnode"
+	"github.com/ipld/go-ipld-prime"
 
 	"verif/harness/core"
 	"verif/harness/gen"
@@ -26,7 +28,9 @@ func init() {
 		if err != nil {
 			return "build: " + err.Error()
 		}
-		if c.Choices != nil {
+		if c.CancelAt > 0 {
+			c06Cancelled(d, c.Via, c.CancelAt, c.Honour, viol)
+		} else if c.Choices != nil {
 			xplore.RunOne(c.Choices, nil, 0, func(x *xplore.Ctx) string { return c06Transient(d, c.Via, x, viol) })
 		} else if c.Missing != "" {
 			mc, _ := cid.Decode(c.Missing)
@@ -44,6 +48,9 @@ type c06Replay struct {
 	Missing string  `json:"missing,omitempty"`
 	Kind    int     `json:"kind,omitempty"`
 	Choices []int   `json:"choices,omitempty"`
+	// CancelAt > 0: the access's context is cancelled during that load
+	CancelAt int  `json:"cancel_at,omitempty"`
+	Honour   bool `json:"storage_honours_context,omitempty"`
 }
 
 var c06Vias = []string{"preload-reifier", "preload-selector", "entity-selector"}
@@ -157,6 +164,75 @@ func c06Withheld(d *c12Dag, via string, miss cid.Cid, kind store.ErrKind, viol f
 			}
 		}
 		viol("partial-entity-no-error "+via+" "+d.c.Kind+class, fmt.Sprintf("%s: block %s (kind %d) is unavailable but %s returned no error", d.c, short(miss), kind, via))
+	}
+}
+
+// c06DoCtx: like c06Do, with everything after the load of the root running
+// under ctx.
+func c06DoCtx(ctx context.Context, d *c12Dag, via string) error {
+	ls := lsFor(d.s)
+	switch via {
+	case "preload-reifier":
+		rn, err := loadRoot(ls, d.root)
+		if err != nil {
+			return fmt.Errorf("harness: load root: %w", err)
+		}
+		_, err = ls.KnownReifiers["unixfs-preload"](ipld.LinkContext{Ctx: ctx}, rn, ls)
+		return err
+	case "preload-selector":
+		return walkMatchingCtx(ctx, ls, d.root, unixfsnode.MatchUnixFSPreloadSelector.Node(), unixfsnode.BytesConsumingMatcher)
+	case "entity-selector":
+		return walkMatchingCtx(ctx, ls, d.root, unixfsnode.MatchUnixFSEntitySelector.Node(), unixfsnode.BytesConsumingMatcher)
+	}
+	return fmt.Errorf("unknown route %s", via)
+}
+
+// c06Cancelled: the context of the access is cancelled while its k-th block
+// (not counting the root) is being loaded. Whether the storage then refuses
+// further loads (honour=true) or keeps serving them, the access either fails
+// or has requested the whole entity: a cancelled context is no reason to
+// report a partial entity as complete.
+func c06Cancelled(d *c12Dag, via string, k int, honour bool, viol func(sig, detail string)) {
+	ctx, cancel := context.WithCancel(context.Background())
+	defer cancel()
+	d.s.ResetLogs()
+	d.s.IgnoreCtx = !honour
+	n := 0
+	d.s.OnRead = func(c cid.Cid, nth int) error {
+		if c.Equals(d.root) {
+			return nil
+		}
+		n++
+		if n == k {
+			cancel()
+		}
+		return nil
+	}
+	defer func() { d.s.OnRead = nil; d.s.IgnoreCtx = false }()
+	var err error
+	if p, pv := core.Guard(func() { err = c06DoCtx(ctx, d, via) }); p {
+		viol("panic cancelled "+via, fmt.Sprintf("%s cancel at load %d: %v", d.c, k, pv))
+		return
+	}
+	if err != nil {
+		return
+	}
+	got := map[string]bool{}
+	for _, c := range d.s.Reads() {
+		got[c.KeyString()] = true
+	}
+	var never []cid.Cid
+	var empty map[string]bool
+	if d.tree != nil {
+		empty = d.tree.EmptySpan()
+	}
+	for _, b := range d.blocks {
+		if !got[b.KeyString()] && !empty[b.KeyString()] {
+			never = append(never, b)
+		}
+	}
+	if len(never) > 0 {
+		viol("partial-entity-no-error cancelled-context "+via+" "+d.c.Kind, fmt.Sprintf("%s: the context was cancelled during load #%d (storage honours it: %v); %s returned no error although %d of %d entity blocks were never requested (%s)", d.c, k, honour, via, len(never), len(d.blocks), shortList(never)))
 	}
 }
 
@@ -277,6 +353,17 @@ func runC06(r *core.Run) {
 						c06Withheld(d, via, b, kind, func(sig, detail string) {
 							r.Violate(sig, detail, c06Replay{Case: c, Via: via, Missing: b.String(), Kind: int(kind)})
 						})
+					}
+				}
+				// the access's context cancelled during its k-th load, for every k
+				if !d.mayRefuse {
+					for k := 1; k <= len(d.blocks); k++ {
+						for _, honour := range []bool{true, false} {
+							withheld.add(1)
+							c06Cancelled(d, via, k, honour, func(sig, detail string) {
+								r.Violate(sig, detail, c06Replay{Case: c, Via: via, CancelAt: k, Honour: honour})
+							})
+						}
 					}
 				}
 				ex := &xplore.Explorer{Bound: 2, Horizon: 2000, Replay: 1, OnDiverge: func(ch []int, a, b string) {
